@@ -4,8 +4,9 @@ import Gv.Spec.SW
 /-!
 Oracle handler for C09 (`sw` op, see `tools/harness/ops_sw.go` for the wire format).
 
-* model result: `Gv.Model.SW.align` of the variant the harness detected (`v=0` shipped code,
-  `v=1` code with the border repair), rendered exactly like the harness renders the real result;
+* model result: `Gv.Model.SW.align` of the variant the harness detected (`v` = border bit +
+  2 · alphabet bit; `0` = code as shipped, `1` = border repair, `2` = alphabet repair, `3` = both),
+  rendered exactly like the harness renders the real result;
 * verdict: the C09 predicate evaluated on the **implementation's** result with the independent
   definitions of `Gv.Spec.SW` (column reading of the rows, affine score, Gotoh optimum, and for tiny
   inputs the enumeration of all local alignments).
